@@ -16,7 +16,10 @@ LEAN_MODULES = ["Clikit.Props.C02"]
 REQUIRED_THEOREMS = ["Clikit.Props.C02.parse_terminates", "Clikit.Props.C02.errors_classified",
                      "Clikit.Props.C02.lenient_never_parse_error", "Clikit.Props.C02.strict_ok_lenient_same",
                      "Clikit.Props.C02.no_foreign_exception", "Clikit.Props.C02.lenient_only_value_error",
-                     "Clikit.Props.C02.d24_guard_needed"]
+                     "Clikit.Props.C02.d24_guard_needed", "Clikit.Props.C02.fault_unknown_long",
+                     "Clikit.Props.C02.fault_unknown_short", "Clikit.Props.C02.fault_value_for_flag",
+                     "Clikit.Props.C02.fault_required_value_missing", "Clikit.Props.C02.fault_missing_required",
+                     "Clikit.Props.C02.parse_of_loop_error"]
 TECHNIQUE = ("Lean 4 theorems on the parser model (no foreign exception, lenient never raises a parse error, "
              "strict-ok implies lenient-identical, termination of the token loop) + exhaustive/differential correspondence")
 LEVEL_TEXT = ("Proved in Lean for ALL formats, token lists and both modes, on a model of DefaultArgsParser.parse/Args that "
@@ -24,13 +27,15 @@ LEVEL_TEXT = ("Proved in Lean for ALL formats, token lists and both modes, on a 
               "(fuel = tokens+1 is never exhausted), lenient mode never raises either parse error, strict success implies the "
               "identical lenient result, and - for well-formed formats, via invariants of the parser's scratch dictionaries "
               "through the token loop and the command-name re-alignment - no exception other than cannot-parse, "
-              "no-such-option and ValueError escapes. The model is tied to the code by differential runs (exhaustive short "
+              "no-such-option and ValueError escapes; and after ANY well-formed prefix an unknown long/short option is rejected "
+              "with no-such-option, a value attached to a flag or a missing required value with cannot-parse (strict), while "
+              "lenient mode continues from the state before the fault. The model is tied to the code by differential runs (exhaustive short "
               "token sequences over an adversarial alphabet x catalogue formats, random longer ones, single-fault mutants "
               "with the required error class).")
 LEVEL_NOTE = ("Trusted: Lean kernel + standard axioms; the hand-written parser model (modelled, not verified; compared with "
               "the real parser on every generated case in strict and lenient mode); CPython int()/float() as conversion "
-              "tables. The 'each fault class yields exactly this error' claims are checked by the correspondence/oracle on "
-              "generated mutants, not proved. no_foreign_exception assumes FmtWF (unique argument names, C07 option normal "
+              "tables. The surplus-positional fault class is checked by the oracle on generated mutants, not proved "
+              "(the other fault classes are theorems). no_foreign_exception assumes FmtWF (unique argument names, C07 option normal "
               "form, defaults of optional-value options convertible inside the model).")
 RULE = ("(a) all token sequences up to length L (quick 2, thorough 3) over a 38-token adversarial alphabet x 7 catalogue "
         "formats; (b) random sequences of length 3-6; (c) single-fault mutants of well-formed C01 lines. Non-trivial = the "
